@@ -213,7 +213,8 @@ func parsePacketAdaptationField(i *astikit.BytesIterator) (a *PacketAdaptationFi
 				err = fmt.Errorf("astits: fetching next byte failed: %w", err)
 				return
 			}
-			a.SpliceCountdown = int(b)
+			// Two's complement signed
+			a.SpliceCountdown = int(int8(b))
 		}
 
 		// Transport private data
